@@ -264,7 +264,7 @@ def run(ctx):
                 "size before, size after, exception)")
     ctx.tie = core.BatchTie(ctx, "cfg", "cfg")
     ctx.ktie = core.BatchTie(ctx, "cfgkeyed", "cfgkeyed")
-    n = ctx.scale(150, 6000)
+    n = ctx.scale(400, 6000)
     for h in range(n):
         if not one_history(ctx, h, ctx.scale(40, 60)):
             if len(ctx.violations) >= 3:
